@@ -33,6 +33,9 @@ type VueContext struct {
 
 	// SlotScope contains slot content for the current component.
 	SlotScope *SlotScope
+
+	// includeDepth counts the nested <template include> tags being evaluated.
+	includeDepth int
 }
 
 // VueContextOptions holds configurable options for a new VueContext.
@@ -74,6 +77,7 @@ func (ctx VueContext) WithTemplate(filename string) VueContext {
 		seen:          ctx.seen,     // Share the v-once tracking map
 		Processors:    ctx.Processors,
 		SlotScope:     ctx.SlotScope, // Share the slot scope
+		includeDepth:  ctx.includeDepth,
 	}
 }
 
